@@ -9,7 +9,7 @@ use prio::field::verif::{FieldV17, FieldV193, FieldV97};
 use prio::field::{Field128, Field64};
 use prio::flp::{FlpError, Type};
 use pvh::engine::{catch, fnv, splitmix, Level, Run};
-use pvh::kit::flpexh::{adversarial_count, vf, SmallCfg, SmallExh};
+use pvh::kit::flpexh::{adversarial_count, vf, ForgedGadget, SmallCfg, SmallExh};
 use pvh::kit::flpkit::{build, Spec, Visit};
 use pvh::kit::ints::{modpow, IntConv, KitField};
 use serde_json::json;
@@ -391,6 +391,14 @@ where
     }
 }
 
+/// Run one sub-check; a panic inside it (an honest library call that failed or panicked where the
+/// harness expected success) is reported as a violation of that instance, not as a harness crash.
+fn guard(run: &Run, key: &str, f: impl FnOnce()) {
+    if let Err(m) = catch(f) {
+        run.fail(&format!("{key}/honest_call_failed"), &format!("{key}: a call on well-formed arguments failed or panicked: {m}"), json!({"instance": key}));
+    }
+}
+
 fn main() {
     let run = Run::from_args("C05", Level::Exploration);
     run.rule("small fields: every input vector of F^n x every joint randomness x every gadget query point (x compression randomness, x prove randomness: all or alphabet, reported per instance) through the real prove/query/decide; reference = specification validity predicate; invalid inputs decided by exact acceptance counts vs the soundness bound; adversarial proofs for Count/GF(17); linearity over share counts and share menus; length menus; deployed fields: randomness lattice, all P-th roots, seeded randomness lines. distinct = distinct (instance, input vector) pairs / adversarial proofs");
@@ -407,6 +415,7 @@ fn main() {
             (Spec::Sum { max: 2 }, c(289, 1, 17, if q { 36 } else { 289 })),
             (Spec::Sum { max: 3 }, c(289, 1, if q { 3 } else { 17 }, if q { 36 } else { 289 })),
             (Spec::Deg3 { len: 1 }, c(17, 1, 17, 1)),
+            (Spec::TwoGadget, c(289, 1, if q { 3 } else { 27 }, if q { 36 } else { 289 })),
             (Spec::Deg3 { len: 2 }, c(289, 1, 3, if q { 36 } else { 289 })),
             (Spec::SumVec { max: 1, len: 2, chunk: 1 }, c(289, 289, if q { 3 } else { 27 }, 1)),
             (Spec::SumVec { max: 1, len: 2, chunk: 2 }, c(289, 17, if q { 9 } else { 81 }, 1)),
@@ -466,6 +475,9 @@ fn main() {
 
     // ---- (B) adversarial proofs
     adversarial_count(&run, !q);
+    for spec in [Spec::TwoGadget, Spec::Count, Spec::Sum { max: 2 }, Spec::Deg3 { len: 1 }, Spec::Histogram { len: 2, chunk: 2 }, Spec::SumVec { max: 1, len: 2, chunk: 1 }] {
+        build::<FieldV17, _>(&spec, ForgedGadget { run: &run, all_inputs: !q || spec.input_len() == 1 }).unwrap();
+    }
     eprintln!("[{:.1}s] adversarial", run.elapsed());
 
     // ---- (C) linearity + lengths
@@ -473,14 +485,15 @@ fn main() {
         Spec::Count,
         Spec::Sum { max: 5 },
         Spec::Deg3 { len: 2 },
+        Spec::TwoGadget,
         Spec::SumVec { max: 2, len: 2, chunk: 3 },
         Spec::Histogram { len: 3, chunk: 2 },
         Spec::Multihot { len: 2, max_weight: 2, chunk: 3 },
         Spec::L1 { max: 2, len: 1, chunk: 3 },
     ];
     for spec in &small_specs {
-        build::<FieldV17, _>(spec, LinLen { run: &run, share_counts: vec![1, 2, 3, 5, 16], n_rand: 6 }).unwrap();
-        build::<FieldV97, _>(spec, LinLen { run: &run, share_counts: vec![1, 2, 3, 7, 96], n_rand: 6 }).unwrap();
+        guard(&run, &format!("lin/{}@GF(17)", spec.name()), || build::<FieldV17, _>(spec, LinLen { run: &run, share_counts: vec![1, 2, 3, 5, 16], n_rand: 6 }).unwrap());
+        guard(&run, &format!("lin/{}@GF(97)", spec.name()), || build::<FieldV97, _>(spec, LinLen { run: &run, share_counts: vec![1, 2, 3, 7, 96], n_rand: 6 }).unwrap());
     }
     let big_specs = vec![
         Spec::Count,
@@ -488,6 +501,7 @@ fn main() {
         Spec::Sum { max: (1 << 63) - 1 },
         Spec::Sum { max: 1000 },
         Spec::Deg3 { len: 5 },
+        Spec::TwoGadget,
         Spec::SumVec { max: 255, len: 3, chunk: 5 },
         Spec::SumVec { max: 1, len: 10, chunk: 3 },
         Spec::Histogram { len: 10, chunk: 3 },
@@ -496,8 +510,8 @@ fn main() {
         Spec::L1 { max: 7, len: 4, chunk: 3 },
     ];
     for spec in &big_specs {
-        build::<Field64, _>(spec, LinLen { run: &run, share_counts: vec![1, 2, 3, 5, 16, 254], n_rand: if q { 5 } else { 12 } }).unwrap();
-        build::<Field128, _>(spec, LinLen { run: &run, share_counts: vec![1, 2, 3, 5, 16, 254], n_rand: if q { 5 } else { 12 } }).unwrap();
+        guard(&run, &format!("lin/{}@Field64", spec.name()), || build::<Field64, _>(spec, LinLen { run: &run, share_counts: vec![1, 2, 3, 5, 16, 254], n_rand: if q { 5 } else { 12 } }).unwrap());
+        guard(&run, &format!("lin/{}@Field128", spec.name()), || build::<Field128, _>(spec, LinLen { run: &run, share_counts: vec![1, 2, 3, 5, 16, 254], n_rand: if q { 5 } else { 12 } }).unwrap());
     }
     eprintln!("[{:.1}s] linearity+lengths", run.elapsed());
 
@@ -521,8 +535,8 @@ fn main() {
         ]);
     }
     for spec in &dep {
-        build::<Field64, _>(spec, Deployed { run: &run, lines: if q { 2 } else { 8 } }).unwrap();
-        build::<Field128, _>(spec, Deployed { run: &run, lines: if q { 2 } else { 8 } }).unwrap();
+        guard(&run, &format!("dep/{}@Field64", spec.name()), || build::<Field64, _>(spec, Deployed { run: &run, lines: if q { 2 } else { 8 } }).unwrap());
+        guard(&run, &format!("dep/{}@Field128", spec.name()), || build::<Field128, _>(spec, Deployed { run: &run, lines: if q { 2 } else { 8 } }).unwrap());
     }
     eprintln!("[{:.1}s] deployed", run.elapsed());
     run.exhaustive(true);
